@@ -522,6 +522,16 @@ fn matched_info<'t, P: Program<'t>>(p: &P, ncaps: usize, path: &str) -> Value {
         Some(m) => {
             let caps: Vec<Option<String>> =
                 (0..=ncaps + 1).map(|i| m.get(i).map(|s| s.to_string())).collect();
+            // byte offsets of every participating capture within the path
+            let base = path.as_ptr() as usize;
+            let offs: Vec<Option<(usize, usize)>> = (0..=ncaps + 1)
+                .map(|i| {
+                    m.get(i).map(|s| {
+                        let start = (s.as_ptr() as usize).wrapping_sub(base);
+                        (start, start + s.len())
+                    })
+                })
+                .collect();
             let complete = m.complete().to_string();
             let owned = m.to_owned();
             let caps_owned: Vec<Option<String>> =
@@ -530,7 +540,7 @@ fn matched_info<'t, P: Program<'t>>(p: &P, ncaps: usize, path: &str) -> Value {
             let caps_into: Vec<Option<String>> =
                 (0..=ncaps + 1).map(|i| into.get(i).map(|s| s.to_string())).collect();
             let candp = into.to_candidate_path().to_string();
-            json!({"m": is_match, "matched": true, "complete": complete, "caps": caps,
+            json!({"m": is_match, "matched": true, "complete": complete, "caps": caps, "offs": offs,
                    "owned_same": caps == caps_owned && caps == caps_into && complete == into.complete(),
                    "cand": candp})
         },
